@@ -97,7 +97,10 @@ static std::string run_read_job(const Job& j) {
     if (cls == "ok") {
         std::string d = dump.str();
         if (d.rfind("MHUGE", 0) == 0) { out += d; return out; }
-        if (j.same_as && d == *j.same_as) out += "MSAME\n"; else out += d;
+        // same mesh as the parent file's source (first line holds the mesh type letter: compare from line 2 on)
+        auto body = [](const std::string& t) { auto p = t.find('\n'); return p == std::string::npos ? t : t.substr(p + 1); };
+        auto head = [](const std::string& t) { auto a = t.find(' ', 2); return a == std::string::npos ? t : t.substr(a); };
+        if (j.same_as && body(d) == body(*j.same_as) && head(d.substr(0, d.find('\n'))) == head(j.same_as->substr(0, j.same_as->find('\n')))) out += "MSAME\n"; else out += d;
     }
     return out;
 }
